@@ -53,8 +53,9 @@ pub struct Outcome {
 }
 
 fn digest(st: &State) -> u64 {
-    // all getters of all flows (the error text is compared separately, by presence)
-    refstate::state_key(st)
+    // all getters of all flows (the error text is compared separately, by presence) and the
+    // state's own limits: "an empty state" after a clear means this tracer's empty state
+    crate::mc::hash64(&(refstate::state_key(st), st.max_samples(), st.max_flows()))
 }
 
 struct EndGuard(Arc<Sched>, usize);
@@ -204,7 +205,7 @@ pub fn linearizable(o: &Outcome) -> Result<Vec<usize>, String> {
                 }
                 OpKind::Snapshot { digest: d, has_error, .. } => {
                     // the error text is whatever the run produced; compare state + presence
-                    *has_error == next.error().is_some() && *d == refstate::state_key(&next)
+                    *has_error == next.error().is_some() && *d == digest(&next)
                 }
             };
             if ok {
